@@ -145,7 +145,7 @@ func c15a(c *Ctx) []c14Reg {
 			bad = "table indexed with " + c.src(ix.Index) + ", not the stream's own data type"
 			return true
 		})
-		c.Check(bad == "" && nIdx >= 2, "R15a", "dispatch:"+d.fn, fd.Pos(), "stdio.%s must select the %s entry for the stream's own data type (%s)", d.fn, d.tab, bad)
+		c.Check(bad == "" && nIdx >= 1, "R15a", "dispatch:"+d.fn, fd.Pos(), "stdio.%s must select the %s entry for the stream's own data type (%s)", d.fn, d.tab, bad)
 	}
 	return regs
 }
@@ -385,6 +385,7 @@ func c15b(c *Ctx) {
 	// --- the iteration call
 	var lit *ast.FuncLit
 	nRA := 0
+	fdefs := localDefs(info, fd.Body) // `each := func(…){…}` / `stdin := p.Stdin`: single-definition locals stand for their definition
 	walkStack(fd.Body, func(n ast.Node, st []ast.Node) bool {
 		call, ok := n.(*ast.CallExpr)
 		if !ok {
@@ -401,10 +402,10 @@ func c15b(c *Ctx) {
 				c.Viol("R15b", "cmdForEachDefault:iterate", call.Pos(), "ReadArrayWithType is called inside a loop/go/defer: elements are not visited once, in order")
 			}
 		}
-		if l, ok := unparen(call.Args[1]).(*ast.FuncLit); ok {
+		if l, ok := fdefs.resolve1(info, call.Args[1]).(*ast.FuncLit); ok {
 			lit = l
 		}
-		if inr, ok := unparen(se.X).(*ast.SelectorExpr); !ok || inr.Sel.Name != "Stdin" {
+		if inr, ok := fdefs.resolve1(info, se.X).(*ast.SelectorExpr); !ok || inr.Sel.Name != "Stdin" {
 			c.Viol("R15b", "cmdForEachDefault:iterate", call.Pos(), "foreach must iterate over p.Stdin (iterates %s)", c.src(se.X))
 		}
 		return true
@@ -621,7 +622,8 @@ func c15b(c *Ctx) {
 				okD = true
 			}
 			if u, ok := d.(*ast.UnaryExpr); ok && u.Op == token.NOT {
-				if call, ok := unparen(u.X).(*ast.CallExpr); ok && cancelsOnFalse[callee(info, call)] {
+				// !helper(…), or !ok with the single definition ok := helper(…)
+				if call, ok := localDefs(info, inner.Body).resolve1(info, u.X).(*ast.CallExpr); ok && cancelsOnFalse[callee(info, call)] {
 					okD = true
 				}
 			}
@@ -799,7 +801,13 @@ func c15LoopCheck(c *Ctx, rule string, pk *packages.Package, fd *ast.FuncDecl, c
 		switch l := nd.(type) {
 		case *ast.ForStmt:
 			body = l.Body
-			if from >= 0 && c15CountedLoop(c, info, fd, l, from) {
+			// `for i := <from>; i < len(<parameter>); i++`; where the whole container must be visited
+			// (from < 0: the range form is expected) the equivalent counting loop starts at 0
+			start := from
+			if start < 0 {
+				start = 0
+			}
+			if c15CountedLoop(c, info, fd, l, start) {
 				header = "counted"
 			}
 			if l.Init == nil && l.Post == nil && l.Cond != nil {
